@@ -33,6 +33,10 @@ type c09Case struct {
 	// Mounted: the request arrives on a front router (no hook of its own) whose handler hands its context to this router
 	// with HandleContext: the hook of the router that runs the chain must contain the panic
 	Mounted bool `json:"mounted_behind_front_router,omitempty"`
+	// Expired: the Timeout middleware's deadline has already passed when the panic strikes
+	Expired bool `json:"timeout_already_expired,omitempty"`
+	// PlainW: the caller's ResponseWriter offers Header / Write / WriteHeader only (no Flusher, no Hijacker)
+	PlainW bool `json:"plain_response_writer,omitempty"`
 }
 
 type c09Val struct{ A, B int }
@@ -87,7 +91,9 @@ func newC09Router(c c09Case) *c09Router {
 	if c.PanicsMW {
 		r.Use(handlers.PanicsHandler())
 	}
-	if c.Timeout {
+	if c.Timeout && c.Expired {
+		r.Use(handlers.Timeout(-time.Second))
+	} else if c.Timeout {
 		r.Use(handlers.Timeout(time.Hour))
 	}
 	if c.WrapResp {
@@ -193,7 +199,11 @@ func c09Run(c c09Case, st *fw.Stats) []fw.Viol {
 			front.NotFound(func(ctx *rux.Context) { cr.k.r.HandleContext(ctx) })
 			entry = front
 		}
-		pv = try(func() { entry.ServeHTTP(w, httptest.NewRequest(m, p, nil)) })
+		var under http.ResponseWriter = w
+		if c.PlainW {
+			under = struct{ http.ResponseWriter }{w}
+		}
+		pv = try(func() { entry.ServeHTTP(under, httptest.NewRequest(m, p, nil)) })
 		return
 	}
 	reps := 1
@@ -325,6 +335,9 @@ func c09Gen(tier string, emit func(c09Case)) {
 								if f == 0 && vi == 1 {
 									emit(c09Case{Where: "chain", N: n, Split: sp, Pos: pos, When: when, Value: v, Hook: hk, Timeout: true})
 									emit(c09Case{Where: "chain", N: n, Split: sp, Pos: pos, When: when, Value: v, Hook: hk, WrapResp: true})
+									emit(c09Case{Where: "chain", N: n, Split: sp, Pos: pos, When: when, Value: v, Hook: hk, Timeout: true, Expired: true})
+									emit(c09Case{Where: "chain", N: n, Split: sp, Pos: pos, When: when, Value: v, Hook: hk, PlainW: true})
+									emit(c09Case{Where: "chain", N: n, Split: sp, Pos: pos, When: when, Value: v, Hook: hk, PlainW: true, Committed: true})
 								}
 								if f == 0 || f == 2 {
 									emit(c09Case{Where: "chain", N: n, Split: sp, Pos: pos, When: when, Value: v, Hook: hk, Committed: f&2 != 0, Mounted: true})
@@ -366,7 +379,7 @@ func c09Gen(tier string, emit func(c09Case)) {
 var c09Spec = fw.Spec[c09Case]{
 	ID:    "C09",
 	Level: "model_checking",
-	Rule: "complete product: chain shapes n<=3 (thorough 5) x every global/group/route split x every panic position x {before Next, after Next, without Next} x panic value {string, error, struct, http.ErrAbortHandler, int} x hook {absent, does nothing, status only, status+body, body only} x {PanicsHandler middleware} x {a byte committed before the panic} (+ the panic request issued twice) (+ the router mounted behind a front router that passes its context on with HandleContext), plus panics inside NotFound / NotAllowed / OnError handlers; each followed by every one of 15 follow-up request kinds compared with a fresh identical router; " +
+	Rule: "complete product: chain shapes n<=3 (thorough 5) x every global/group/route split x every panic position x {before Next, after Next, without Next} x panic value {string, error, struct, http.ErrAbortHandler, int} x hook {absent, does nothing, status only, status+body, body only} x {PanicsHandler middleware} x {a byte committed before the panic} (+ the panic request issued twice) (+ the router mounted behind a front router that passes its context on with HandleContext) (+ under the Timeout middleware with a deadline that is far away / has already passed) (+ on a caller's writer without Flush), plus panics inside NotFound / NotAllowed / OnError handlers; each followed by every one of 15 follow-up request kinds compared with a fresh identical router; " +
 		"every case is non-trivial (a panic is raised in each)",
 	Assume: []string{"for the in-chain PanicsHandler only 'the panic does not escape' and 'follow-ups are unaffected' are asserted (the statement promises nothing else for it)", "when the hook sets no status, any single committed status is accepted"},
 	Bounds: func(tier string) map[string]any {
